@@ -572,6 +572,142 @@ func newAuthVerifier(fset *token.FileSet, f *ast.File) (string, error) {
 	return fmt.Sprintf("{| nav_cases := %s; nav_other_statements := %d; nav_always_pass_mentions := %d |}", coqList(cases), other, mentions), nil
 }
 
+// legacyAuth: pkg/config/legacy/conversion.go Convert_ServerCommonConf_To_v1 — which legacy field ends up in which field of
+// out.Auth, whether written field by field or as a composite literal; scope appends as ("scope:<const>", <condition>).
+func legacyAuth(fset *token.FileSet, f *ast.File) (string, error) {
+	fd := findFunc(f, "", "Convert_ServerCommonConf_To_v1")
+	if fd == nil {
+		return "", fmt.Errorf("Convert_ServerCommonConf_To_v1 not found")
+	}
+	e := &env{fset: fset, subst: map[string]string{}}
+	if ps := paramNames(fd); len(ps) == 1 {
+		e.subst[ps[0]] = "conf"
+	}
+	var pairs []string
+	add := func(k, v string) { pairs = append(pairs, fmt.Sprintf("(%s, %s)", tx.CoqString(k), tx.CoqString(v))) }
+	var lit func(prefix string, x ast.Expr)
+	lit = func(prefix string, x ast.Expr) {
+		if cl, ok := x.(*ast.CompositeLit); ok {
+			for _, el := range cl.Elts {
+				if kv, ok := el.(*ast.KeyValueExpr); ok {
+					lit(prefix+"."+e.raw(kv.Key), kv.Value)
+				} else {
+					add(prefix+".?", e.raw(el))
+				}
+			}
+			return
+		}
+		add(prefix, e.render(x))
+	}
+	ast.Inspect(fd.Body, func(n ast.Node) bool {
+		switch v := n.(type) {
+		case *ast.IfStmt:
+			for _, st := range v.Body.List {
+				if a, ok := st.(*ast.AssignStmt); ok && len(a.Lhs) == 1 && len(a.Rhs) == 1 && strings.HasPrefix(e.raw(a.Lhs[0]), "out.Auth.AdditionalScopes") {
+					if c, ok := isCall(a.Rhs[0], "append"); ok && len(c.Args) == 2 {
+						add("scope:"+e.raw(c.Args[1]), e.render(v.Cond))
+					} else {
+						add("scope:?", e.raw(a.Rhs[0]))
+					}
+				}
+			}
+		case *ast.AssignStmt:
+			if len(v.Lhs) == 1 && len(v.Rhs) == 1 {
+				l := e.raw(v.Lhs[0])
+				if strings.HasPrefix(l, "out.Auth") && !strings.HasPrefix(l, "out.Auth.AdditionalScopes") {
+					lit(strings.TrimPrefix(l, "out."), v.Rhs[0])
+				}
+			}
+		}
+		return true
+	})
+	sort.Strings(pairs)
+	return coqList(pairs), nil
+}
+
+// loginHook: server/service.go handleConnection, `case *msg.Login:` — the Login plugin chain is called exactly once, as a
+// top-level statement of the case (no guard: every Login on every listener), and RegisterControl gets what it returned.
+func loginHook(fset *token.FileSet, f *ast.File) (string, error) {
+	fd := findFunc(f, "Service", "handleConnection")
+	if fd == nil {
+		return "", fmt.Errorf("handleConnection not found")
+	}
+	e := &env{fset: fset, subst: map[string]string{}}
+	var body []ast.Stmt
+	ast.Inspect(fd.Body, func(n ast.Node) bool {
+		if cc, ok := n.(*ast.CaseClause); ok && len(cc.List) == 1 && e.raw(cc.List[0]) == "*msg.Login" {
+			body = cc.Body
+		}
+		return true
+	})
+	if body == nil {
+		return "", fmt.Errorf("case *msg.Login not found")
+	}
+	isPluginLogin := func(x ast.Expr) bool {
+		c, ok := x.(*ast.CallExpr)
+		if !ok {
+			return false
+		}
+		s, ok := c.Fun.(*ast.SelectorExpr)
+		return ok && s.Sel.Name == "Login" && strings.HasSuffix(e.raw(s.X), "pluginManager")
+	}
+	calls, top := 0, false
+	for _, st := range body {
+		ast.Inspect(st, func(n ast.Node) bool {
+			if x, ok := n.(ast.Expr); ok && isPluginLogin(x) {
+				calls++
+			}
+			return true
+		})
+		if a, ok := st.(*ast.AssignStmt); ok && len(a.Rhs) == 1 && isPluginLogin(a.Rhs[0]) {
+			top = true
+		}
+	}
+	mFromRet, regArgs := false, []string{}
+	for _, st := range body {
+		ast.Inspect(st, func(n ast.Node) bool {
+			switch v := n.(type) {
+			case *ast.AssignStmt:
+				if len(v.Lhs) == 1 && len(v.Rhs) == 1 && e.raw(v.Lhs[0]) == "m" && e.raw(v.Rhs[0]) == "&retContent.Login" {
+					mFromRet = true
+				}
+			case *ast.CallExpr:
+				if s, ok := v.Fun.(*ast.SelectorExpr); ok && s.Sel.Name == "RegisterControl" {
+					for _, a := range v.Args {
+						regArgs = append(regArgs, tx.CoqString(e.raw(a)))
+					}
+				}
+			}
+			return true
+		})
+	}
+	return fmt.Sprintf("{| lh_calls := %d; lh_toplevel := %v; lh_m_from_ret := %v; lh_regctl_args := %s |}", calls, top, mFromRet, coqList(regArgs)), nil
+}
+
+// managerLoginAdopt: pkg/plugin/server/manager.go Manager.Login — the statements under `if !res.Unchange`.
+func managerLoginAdopt(fset *token.FileSet, f *ast.File) (string, error) {
+	fd := findFunc(f, "Manager", "Login")
+	if fd == nil {
+		return "", fmt.Errorf("Manager.Login not found")
+	}
+	e := &env{fset: fset, subst: map[string]string{}}
+	var out []string
+	found := 0
+	ast.Inspect(fd.Body, func(n ast.Node) bool {
+		if is, ok := n.(*ast.IfStmt); ok && e.raw(is.Cond) == "!res.Unchange" {
+			found++
+			for _, st := range is.Body.List {
+				out = append(out, tx.CoqString(e.raw(st)))
+			}
+		}
+		return true
+	})
+	if found != 1 {
+		out = append(out, tx.CoqString(fmt.Sprintf("?%d blocks `if !res.Unchange`", found)))
+	}
+	return coqList(out), nil
+}
+
 func gen() ([]byte, error) {
 	fset := token.NewFileSet()
 	tf, err := parser.ParseFile(fset, filepath.Join(tx.Repo, "pkg/auth/token.go"), nil, 0)
@@ -628,6 +764,29 @@ func gen() ([]byte, error) {
 	if err != nil {
 		return nil, err
 	}
-	fmt.Fprintf(&b, "Definition gen_new_auth_verifier : ga_newverifier :=\n  %s.\n", nav)
+	fmt.Fprintf(&b, "Definition gen_new_auth_verifier : ga_newverifier :=\n  %s.\n\n", nav)
+	cvf, err := parser.ParseFile(fset, filepath.Join(tx.Repo, "pkg/config/legacy/conversion.go"), nil, 0)
+	if err != nil {
+		return nil, err
+	}
+	la, err := legacyAuth(fset, cvf)
+	if err != nil {
+		return nil, err
+	}
+	fmt.Fprintf(&b, "Definition gen_legacy_server_auth : list (string * string) :=\n  %s.\n\n", la)
+	lh, err := loginHook(fset, sf)
+	if err != nil {
+		return nil, err
+	}
+	fmt.Fprintf(&b, "Definition gen_login_hook : ga_loginhook :=\n  %s.\n\n", lh)
+	mgf, err := parser.ParseFile(fset, filepath.Join(tx.Repo, "pkg/plugin/server/manager.go"), nil, 0)
+	if err != nil {
+		return nil, err
+	}
+	ml, err := managerLoginAdopt(fset, mgf)
+	if err != nil {
+		return nil, err
+	}
+	fmt.Fprintf(&b, "Definition gen_manager_login_adopt : list string :=\n  %s.\n", ml)
 	return b.Bytes(), nil
 }
